@@ -230,7 +230,12 @@ def check_ids(case):
     version, notify_between, n = case
     out = Out(cls="ids")
     ids = []
+    reseed = n == 3000 and notify_between
     for i in range(n):
+        if reseed and i % 2 == 0:
+            # sources of pseudo-randomness an application may reset at any time (fresh ids must not depend on them)
+            import random
+            random.seed(12345)
         d = J.dump([i], "m", None, version, None, None)
         ids.append(d["id"])
         if notify_between:
